@@ -251,6 +251,10 @@ func runC09(w *World, r *Report) {
 		}
 	}
 
+	// 2c. a created vertex references only tips that were valid at that moment
+	r.rule("created-vertex-references-valid-tips", "the parents CreateLeaf links a new vertex to originate only from getValidLeaves, which hands out a tip only behind validateLeaf(ctx, that tip) == nil (an aborted or failed validation never falls through to the selection)", 3)
+	createdVertexParentsValidated(w, r, "created-vertex-references-valid-tips")
+
 	// 3. roll back the new vertex when linking fails
 	r.rule("rollback-vertex", "after a successful AddVertexByID every path to an error return passes DeleteVertex(new vertex)", 2)
 	for _, fnName := range []string{"addLeafMemorized", "CreateLeaf"} {
@@ -286,7 +290,7 @@ func runC09(w *World, r *Report) {
 	}
 
 	// 3b. only tips are ever deleted outside truncation
-	r.rule("delete-only-tips", "DeleteVertex outside truncate removes only a vertex that cannot have children: the one just inserted, one taken from GetLeaves(), or one behind IsLeaf(same id) == true", 4)
+	r.rule("delete-only-tips", "DeleteVertex outside truncate removes only a vertex that cannot have children: the one just inserted, one taken from GetLeaves(), or one behind IsLeaf(same id) == true", 2)
 	for _, fn := range w.RepoFuncs("accountant") {
 		for _, d := range callsTo(fn, nDeleteVertex) {
 			if truncateOwns(w, d) {
@@ -300,48 +304,43 @@ func runC09(w *World, r *Report) {
 				continue
 			}
 			v := pathOf(x)
-			why := ""
-			good := false
-			// (a) just inserted in this function
-			justInserted := func(fn2 *ssa.Function, res resolver) []Edge {
-				var es []Edge
-				for _, s := range callsTo(fn2, nAddVertexByID) {
-					_, sa := callArgs(s)
-					if res(sa[1]) == v {
-						es = append(es, passErrNil(s)...)
+			good, why := deletesTip(w, fn, d.(ssa.Instruction), x)
+			if prm, isPrm := strip(x).(*ssa.Parameter); !good && isPrm && fn.Parent() == nil && fn.Object() != nil && !fn.Object().Exported() {
+				// a roll-back helper that is handed the vertex: decide per call site, with that site's arguments
+				// (a constant flag may make the deletion unreachable for the site)
+				sites := staticCallers(w, fn)
+				okAll := len(sites) > 0
+				for _, cs := range sites {
+					reached := false
+					dw := newDeepWalk(func(in ssa.Instruction, fr *frame) bool {
+						if fr.top() {
+							return true
+						}
+						if in == d.(ssa.Instruction) {
+							reached = true
+						}
+						return reached
+					})
+					dw.run(frameFor(cs.Parent(), []ssa.CallInstruction{cs}), fn.Blocks[0], 0)
+					if !reached {
+						continue
 					}
-				}
-				return es
-			}
-			if behindAll(w, d.(ssa.Instruction), idMap, justInserted, 2) {
-				good = true
-			}
-			// (b) taken from GetLeaves()
-			for _, o := range origins(x) {
-				if c, isCall := o.(*ssa.Call); isCall && calleeName(c) == dagM("GetLeaves") {
-					good = true
-				}
-			}
-			// (c) behind IsLeaf(id) == true where id is the id the vertex was looked up with
-			if !good {
-				var lookupArg string
-				for _, o := range origins(x) {
-					if ex, isEx := o.(*ssa.Extract); isEx {
-						if gc, isCall := ex.Tuple.(*ssa.Call); isCall && calleeName(gc) == nGetVertex {
-							_, ga := callArgs(gc)
-							lookupArg = pathOf(ga[0])
+					var arg ssa.Value
+					for k, p := range fn.Params {
+						if p == prm && k < len(cs.Common().Args) {
+							arg = cs.Common().Args[k]
 						}
 					}
-				}
-				var leafE []Edge
-				for _, c := range callsTo(fn, dagM("IsLeaf")) {
-					_, la := callArgs(c)
-					if lookupArg != "" && pathOf(la[0]) == lookupArg {
-						leafE = append(leafE, passBool(c, 0, true)...)
+					if arg == nil {
+						okAll = false
+						continue
+					}
+					if g2, why2 := deletesTip(w, cs.Parent(), cs.(ssa.Instruction), arg); !g2 {
+						okAll = false
+						why = "called at " + lineOf(w, cs) + ": " + why2
 					}
 				}
-				good = behind(d, leafE)
-				why = fmt.Sprintf("vertex %s looked up by %q is deleted without IsLeaf(%s) == true on the path: its children would keep a parent that is neither live nor checkpointed", v, lookupArg, lookupArg)
+				good = okAll
 			}
 			r.check(good, "delete-only-tips", key+"("+v+")", lineOf(w, d), "only childless vertices are removed from the live DAG", why)
 		}
@@ -1233,8 +1232,24 @@ func runC13(w *World, r *Report) {
 			own := len(rl.fn.Params) > 1 && len(a) > 0 && sameVal(d.argValue(a[0]), rl.fn.Params[1])
 			r.check(own, "retry-reenters-admission", "runLeafSubscriber/replay-context", lineOf(w, d.c), "the replay is admitted under the subscriber loop's own context", "context argument is "+d.path(a[0]))
 		}
-		direct := len(rl.calls(nAddVertexByID, nAddEdge))
-		r.check(direct == 0, "retry-reenters-admission", "runLeafSubscriber/no-direct-insert", w.Pos(rl.fn.Pos()), "the retry loop never touches the DAG itself", fmt.Sprintf("%d direct DAG calls", direct))
+		// neither the DAG nor the transaction index is touched by the retry loop itself (or by helpers it calls
+		// beside the admission): whatever a replay returns, the state of admitted vertices belongs to the admission path
+		admission := cn("accountant", "*AccountingBook", "addLeafMemorized")
+		direct := 0
+		where := ""
+		for _, d := range deepCalls(rl.fn, byName(nAddVertexByID, nAddEdge, nDeleteVertex, nRemoveTrx, nSaveTrx), deepDepth) {
+			through := false
+			for _, cs := range d.chain {
+				if calleeName(cs) == admission {
+					through = true
+				}
+			}
+			if !through {
+				direct++
+				where += " " + shortCallee(d.c) + "@" + lineOf(w, d.c)
+			}
+		}
+		r.check(direct == 0, "retry-reenters-admission", "runLeafSubscriber/no-direct-insert", w.Pos(rl.fn.Pos()), "the retry loop never touches the DAG or the transaction index itself", fmt.Sprintf("%d direct calls:%s", direct, where))
 	}
 }
 
@@ -1584,4 +1599,53 @@ func syncGuardObligations(w *World, r *Report, rule string) {
 		r.check(okEmpty, rule, "LoadDag/empty-transaction", w.Pos(fn.Pos()), "an empty transaction aborts the load", "IsEmpty test missing or not leading to cancel")
 	}
 
+}
+
+
+// deletesTip: the vertex x removed at instruction at (a DeleteVertex call, or the call of a helper that performs it)
+// cannot have children: it was just inserted, it was taken from GetLeaves(), or the site lies behind
+// IsLeaf(id) == true for the id the vertex was looked up with.
+func deletesTip(w *World, fn *ssa.Function, at ssa.Instruction, x ssa.Value) (bool, string) {
+	v := pathOf(x)
+	// (a) just inserted in this function
+	justInserted := func(fn2 *ssa.Function, res resolver) []Edge {
+		var es []Edge
+		for _, s := range callsTo(fn2, nAddVertexByID) {
+			_, sa := callArgs(s)
+			if res(sa[1]) == v {
+				es = append(es, passErrNil(s)...)
+			}
+		}
+		return es
+	}
+	if behindAll(w, at, idMap, justInserted, 2) {
+		return true, ""
+	}
+	// (b) taken from GetLeaves()
+	for _, o := range origins(x) {
+		if c, isCall := o.(*ssa.Call); isCall && calleeName(c) == dagM("GetLeaves") {
+			return true, ""
+		}
+	}
+	// (c) behind IsLeaf(id) == true where id is the id the vertex was looked up with
+	var lookupArg string
+	for _, o := range origins(x) {
+		if ex, isEx := o.(*ssa.Extract); isEx {
+			if gc, isCall := ex.Tuple.(*ssa.Call); isCall && calleeName(gc) == nGetVertex {
+				_, ga := callArgs(gc)
+				lookupArg = pathOf(ga[0])
+			}
+		}
+	}
+	var leafE []Edge
+	for _, c := range callsTo(fn, dagM("IsLeaf")) {
+		_, la := callArgs(c)
+		if lookupArg != "" && pathOf(la[0]) == lookupArg {
+			leafE = append(leafE, passBool(c, 0, true)...)
+		}
+	}
+	if behind(at, leafE) {
+		return true, ""
+	}
+	return false, fmt.Sprintf("vertex %s looked up by %q is deleted without IsLeaf(%s) == true on the path: its children would keep a parent that is neither live nor checkpointed", v, lookupArg, lookupArg)
 }
